@@ -266,7 +266,7 @@ def flags(new, ref):
                 continue
             # a function the reference did not have (code that was moved out of another one) brings the constructs of that code with
             # it: what counts is that the module as a whole uses no more of them than it did
-            if key not in ref and kind.startswith("bind:") and total(new, kind) <= total(ref, kind):
+            if key not in ref and kind.startswith(("bind:", "dunder:", "call:", "node:")) and total(new, kind) <= total(ref, kind):
                 continue
             if n > r.get(kind, 0):
                 out.setdefault(key, f"{kind} ({n} > {r.get(kind, 0)} in the reference)")
